@@ -83,6 +83,9 @@ func bufKey(v ssa.Value) string {
 	return fmt.Sprintf("%s@%p", v.Name(), v)
 }
 
+// linBind: parameters of integer helpers lin has entered, bound to the arguments of the call it came through.
+var linBind = map[*ssa.Parameter]ssa.Value{}
+
 func lin(v ssa.Value, depth int) linForm {
 	if depth > 12 {
 		return linForm{}
@@ -119,7 +122,27 @@ func lin(v ssa.Value, depth int) linForm {
 		}
 	case *ssa.Call:
 		if bi, ok := x.Call.Value.(*ssa.Builtin); ok && bi.Name() == "len" {
-			return linAtom("len(" + bufKey(x.Call.Args[0]) + ")")
+			arg := x.Call.Args[0]
+			if prm, isP := stripConv(arg).(*ssa.Parameter); isP {
+				if b, bound := linBind[prm]; bound {
+					arg = b
+				}
+			}
+			return linAtom("len(" + bufKey(arg) + ")")
+		}
+		// a one-block integer helper of the repository (versionOffset(k) = len(k) - 9): its returned expression with
+		// the parameters bound to the arguments
+		if g := x.Call.StaticCallee(); g != nil && inRepo(g) && len(g.Blocks) == 1 && isIntType(x.Type()) && len(g.Params) == len(x.Call.Args) {
+			if ret, ok := g.Blocks[0].Instrs[len(g.Blocks[0].Instrs)-1].(*ssa.Return); ok && len(ret.Results) == 1 {
+				for i, prm := range g.Params {
+					linBind[prm] = x.Call.Args[i]
+				}
+				return lin(ret.Results[0], depth+1)
+			}
+		}
+	case *ssa.Parameter:
+		if b, bound := linBind[x]; bound && depth < 10 {
+			return lin(b, depth+1)
 		}
 	case *ssa.UnOp:
 		// load of a struct field: the value last stored to the same place on the straight-line
